@@ -21,7 +21,7 @@ MC = {  # pid -> tier -> (cfg, module, simulate-spec or None, timeout)
     "C07": {"quick": ("MC_C07_quick.cfg", "MC_cyc.tla"), "thorough": ("MC_C07_thorough.cfg", "MC_cyc.tla")},
 }
 
-N_CASES = {"quick": 1600, "thorough": 40000}
+N_CASES = {"quick": 1600, "thorough": 10000}
 
 def gen_cases(pid, tier, seed, wd):
     rng = random.Random(seed * 1000003 + int(pid[1:]))
